@@ -23,7 +23,7 @@ open W2c2Verif Gen
 def pageSize : Nat := 65536
 
 /-- constant expressions as `wasmCWriteConstantExpr` renders them: a literal, or `(*i->import)` / `i->g<k>` -/
-inductive CExpr
+inductive ConstE
   | const (bits : Nat)
   | globalGet (idx : Nat)
   deriving Repr, Inhabited, DecidableEq
@@ -31,13 +31,13 @@ inductive CExpr
 structure DataSeg where
   passive : Bool
   mem : Nat                 -- memory index (imports first)
-  offset : CExpr
+  offset : ConstE
   bytes : List UInt8
   deriving Repr, Inhabited
 
 structure ElemSegD where
   table : Nat               -- table index (imports first)
-  offset : CExpr
+  offset : ConstE
   funcs : List Nat
   deriving Repr, Inhabited
 
@@ -48,7 +48,7 @@ structure ModDesc where
   globalImports : Nat := 0
   mems : List (Nat × Nat) := []        -- defined memories (min, max pages)
   tables : List (Nat × Nat) := []      -- defined tables (min, max)
-  globals : List CExpr := []           -- initialiser of every defined global
+  globals : List ConstE := []           -- initialiser of every defined global
   datas : List DataSeg := []
   elems : List ElemSegD := []
   hasStart : Bool := false
@@ -98,7 +98,7 @@ def foldM' {σ α} (f : σ → α → Out σ) : σ → List α → Out σ
 
 /-! ## evaluation of constant expressions and index spaces -/
 
-def evalC (d : ModDesc) (gl : List Nat) (i : Instance) : CExpr → Out Nat
+def evalC (d : ModDesc) (gl : List Nat) (i : Instance) : ConstE → Out Nat
   | .const b => .val b
   | .globalGet k =>
     if k < d.globalImports then
